@@ -4,12 +4,12 @@ from __future__ import annotations
 import ast
 import re
 
-from sa.astx import call_name, module_consts, names_read, src, walk_local
+from sa.astx import call_name, module_consts, src
 from sa.domains import escaper_problems, replace_chain
 from sa.effects import class_accesses
 from sa.selftest import Mutant, Silent
 from sa.source import AnalysisError, class_assigns, methods
-from sa.props._lib_i import (sect, COMPAT, BlockRaised, FollowModule, NotPure, Raised, eval_block, interp, module_env, peval, words)
+from sa.props._lib_i import (sect, COMPAT, BlockRaised, FollowModule, NotPure, Raised, bind_methods, eval_block, interp, module_env, peval, words)
 
 PROPERTY = "C43"
 IRC = "words/protocols/irc.py"
@@ -81,7 +81,7 @@ def _check_quoting(ctx, env, cenv, label, qname, dqname, esc_name, table_name, d
     env[dtable_name] = dtable
     # -- quoter as an ordered rewrite system
     fq = ctx.func(IRC, qname)
-    quote = interp(fq, COMPAT, env)
+    quote = interp(fq, FollowModule(mod, dict(COMPAT), env), env)
     for k, v in table.items():
         try:
             got = quote(k)
@@ -108,7 +108,7 @@ def _check_quoting(ctx, env, cenv, label, qname, dqname, esc_name, table_name, d
                   f"{qname}({text!r}) gives {got!r} instead of {''.join(table[c] for c in text)!r}: the escape unit introduced by one rewrite is escaped again by a later one")
     # -- de-quoter: evaluated as a whole (its regex, if any, is a stdlib object built from the module's constant pattern)
     fd = ctx.func(IRC, dqname)
-    dequote = interp(fd, COMPAT, env)
+    dequote = interp(fd, FollowModule(mod, dict(COMPAT), env), env)
     for rx_name, rx in sorted((k, v) for k, v in env.items() if isinstance(v, re.Pattern) and any(isinstance(n, ast.Name) and n.id == k for n in ast.walk(fd))):
         shape_ok = all((m := rx.match(esc + t + "Z")) is not None and m.end() == 2 for t in list(want) + [esc, "a"]) and rx.match("a" + esc) is None and rx.fullmatch(esc) is None
         ctx.check(shape_ok, "dequote/regex", f"{base}{rx_name}", f"pattern {rx.pattern!r} does not match exactly the escape unit followed by one character")
@@ -139,58 +139,65 @@ def _check_send_path(ctx, env, low_pairs):
     cls = ctx.cls(IRC, "IRCClient")
     ms = methods(cls)
     base = "twisted.words.protocols.irc.IRCClient."
-    # -- only _reallySendLine writes to the wire
+    # -- only _reallySendLine (or a private helper called from nothing else) writes to the wire
+    callers = {}
+    for name, m in ms.items():
+        for c in ast.walk(m):
+            if isinstance(c, ast.Call) and (call_name(c) or "").startswith("self.") and (call_name(c) or "").count(".") == 1:
+                callers.setdefault(call_name(c)[5:], set()).add(name)
+
+    def wire_writer(name, seen=()):
+        if name == "_reallySendLine":
+            return True
+        cs = callers.get(name, set())
+        return name.startswith("_") and bool(cs) and name not in seen and all(wire_writer(c, seen + (name,)) for c in cs)
     n = 0
     for name, m in ms.items():
         for c in ast.walk(m):
             if isinstance(c, ast.Call) and ((call_name(c) or "").endswith("LineReceiver.sendLine") or call_name(c) in ("self.transport.write", "self.transport.writeSequence")):
                 n += 1
-                ctx.check(name == "_reallySendLine", "send/single-wire-path", ctx.construct(base + name, c),
+                ctx.check(wire_writer(name), "send/single-wire-path", ctx.construct(base + name, c),
                           "a second place writes protocol lines to the transport, bypassing low-level quoting and the CR LF terminator")
     ctx.floor("send/single-wire-path", n, 1)
+    # -- _reallySendLine evaluated (with the private helpers it calls): the wire carries lowQuote(line), UTF-8 encoded, then CR LF
     f = ctx.func(IRC, "IRCClient._reallySendLine")
-    g = ctx.cfg(f)
     q = base + "_reallySendLine"
     line = f.args.args[1].arg
-    sinks = g.find(lambda x: isinstance(x, ast.Call) and (call_name(x) or "").endswith("LineReceiver.sendLine"))
-    ctx.need(sinks, "LineReceiver.sendLine call in _reallySendLine")
-    for s in sinks:
-        call = next(x for x in walk_local(g.node(s).ast) if isinstance(x, ast.Call) and (call_name(x) or "").endswith("LineReceiver.sendLine"))
-        arg = call.args[-1]
-        ok = isinstance(arg, ast.Name) and arg.id != line
-        quoted = []
-        if ok:
-            defs = g.ids(lambda n: n.kind == "stmt" and isinstance(n.ast, (ast.Assign, ast.AugAssign)) and any(isinstance(t, ast.Name) and t.id == arg.id
-                         for t in (n.ast.targets if isinstance(n.ast, ast.Assign) else [n.ast.target])))
-            for d in defs:
-                st = g.node(d).ast
-                v = st.value
-                if isinstance(st, ast.Assign) and isinstance(v, ast.Call) and call_name(v) == "lowQuote" and len(v.args) == 1 and src(v.args[0]) == line:
-                    quoted.append(d)
-                elif isinstance(st, ast.Assign) and (arg.id not in names_read(v) or line in names_read(v)):
-                    ok = False
-            ok = ok and bool(quoted) and g.must_precede(quoted, [s]) is None
-        ctx.check(ok, "send/quoted-before-wire", ctx.construct(q, call),
-                  "the line reaches LineReceiver.sendLine without having passed lowQuote on every path: a CR, LF or NUL in a message goes out raw and "
-                  "splits the IRC line")
-    # terminator: evaluate the body for a sample line
     delim = class_assigns(cls).get("delimiter")
     ctx.need(delim is not None, "IRCClient.delimiter")
     dval = peval(delim, env)
-    fn = dict(COMPAT)
-    fn["lowQuote"] = lambda s: s
-    for sample in ("abc", b"abc"):
+    follow = FollowModule(mod, dict(COMPAT), env)
+    real_quote = interp(ctx.func(IRC, "lowQuote"), follow, env)
+
+    def method_env(skip, **extra):
+        e = dict(env)
+        e.update({"self": object()})
+        e.update(extra)
+        bind_methods(e, [cls], follow, skip=set(skip))
+        return e
+
+    def send_one(sample, f=f, line=line, q=q):
+        sent = []
+        e = method_env({f.name}, **{line: sample})
+        fl = FollowModule(mod, dict(COMPAT), env)
+        fl["basic.LineReceiver.sendLine"] = lambda slf, data: sent.append(data)
+        fl["LineReceiver.sendLine"] = fl["basic.LineReceiver.sendLine"]
         try:
-            r = eval_block(f.body, {line: sample, "self": object()}, funcs=fn, record={"basic.LineReceiver.sendLine"})
+            r = eval_block(f.body, e, funcs=fl)
         except BlockRaised as ex:
             raise AnalysisError(f"{q}: not evaluable for {sample!r}: {ex}")
-        wire = b"".join(a[-1] + dval for _, a in r.calls if isinstance(a[-1], bytes))
-        ctx.check(wire == b"abc\r\n", "send/terminator", f"{q} | {type(sample).__name__} line", f"a line {sample!r} goes out as {wire!r}; IRC lines end in CR LF and the limit accounts for exactly two octets")
-    # sendLine / _sendLine only hand lines to _reallySendLine unchanged
-    for name in ("sendLine", "_sendLine"):
-        m = ctx.func(IRC, "IRCClient." + name)
-        calls = [c for c in ast.walk(m) if isinstance(c, ast.Call) and call_name(c) == "self._reallySendLine"]
-        ctx.check(bool(calls), "send/single-wire-path", base + name + " | reaches _reallySendLine", f"{name} no longer hands lines to _reallySendLine")
+        if r.raised:
+            raise AnalysisError(f"{q}: raises {r.raised}")
+        return b"".join(bytes(x) + dval for x in sent)
+    for sample in ("abc", "a\rb\nc\x00d\x10e", "\u00e9\r", "PRIVMSG u :x y"):
+        wire = send_one(sample)
+        quoted = real_quote(sample)
+        want = (quoted.encode("utf-8") if isinstance(quoted, str) else quoted) + b"\r\n"
+        body = wire[:-2]
+        ctx.check(not (b"\r" in body or b"\n" in body or b"\x00" in body) and wire[-2:] == b"\r\n" and wire == want, "send/quoted-before-wire" if wire[-2:] == b"\r\n" else "send/terminator",
+                  f"{q} | {type(sample).__name__} line {'with control characters' if any(c in (sample if isinstance(sample, str) else sample.decode('latin-1')) for c in chr(13) + chr(10) + chr(0) + chr(16)) else 'plain'}",
+                  f"the line {sample!r} goes out as {wire!r}; required {want!r}: low-level quoted (a CR, LF or NUL in a message must not reach the wire raw, it would split the "
+                  "IRC line), UTF-8 encoded, terminated by exactly CR LF (the limit accounts for two octets)")
 
     # -- _sendMessage budget arithmetic
     f = ctx.func(IRC, "IRCClient._sendMessage")
@@ -210,12 +217,17 @@ def _check_send_path(ctx, env, low_pairs):
                 def fake_split(text, width, _seen=seen):
                     _seen.append((text, width))
                     return ["L1", "L2"]
-                fn = dict(COMPAT)
+                fn = FollowModule(mod, dict(COMPAT), env)
                 fn["split"] = fake_split
                 try:
-                    r = eval_block(f.body, {**env, "self": object(), p_type: mt, p_user: user, p_msg: LONG, p_len: length}, funcs=fn,
+                    r = eval_block(f.body, method_env({f.name, "sendLine"}, **{p_type: mt, p_user: user, p_msg: LONG, p_len: length}), funcs=fn,
                                    record={"self.sendLine"})
                 except BlockRaised as ex:
+                    if isinstance(ex.exc, RuntimeError) and str(ex.exc).startswith("raise "):       # raised by a private helper the method calls
+                        cases += 1
+                        if seen and bad is None:
+                            bad = (mt, user, length, "raises after splitting")
+                        continue
                     raise AnalysisError(f"{q}: not evaluable: {ex}")
                 cases += 1
                 if r.raised:
@@ -238,23 +250,22 @@ def _check_send_path(ctx, env, low_pairs):
     ctx.check(bad_send is None, "split/every-chunk-sent", q + " | one line per chunk, in order",
               bad_send and f"chunks ['L1', 'L2'] for '{bad_send[0]} {bad_send[1]} :' are sent as {bad_send[3]!r}")
     # split(message, ...) receives the caller's text
-    # -- msg / notice forward message and length
+    # -- msg / notice forward target, text and length (evaluated with a recording _sendMessage)
+    sm_params = params[1:]
     for name, cmd in (("msg", "PRIVMSG"), ("notice", "NOTICE")):
         m = ctx.func(IRC, "IRCClient." + name)
-        mp = [a.arg for a in m.args.args]
-        calls = [c for c in ast.walk(m) if isinstance(c, ast.Call) and call_name(c) == "self._sendMessage"]
-        ctx.need(calls, f"self._sendMessage call in {name}")
-        for c in calls:
-            got = [src(a) for a in c.args] + [f"{k.arg}={src(k.value)}" for k in c.keywords]
-            ok = len(c.args) >= 3 and src(c.args[1]) == mp[1] and src(c.args[2]) == mp[2] and (
-                (len(c.args) >= 4 and src(c.args[3]) == mp[3]) or any(k.arg == p_len and src(k.value) == mp[3] for k in c.keywords))
-            try:
-                ok = ok and peval(c.args[0], {}) == cmd
-            except (NotPure, Raised):
-                ok = False
-            ctx.check(ok, "send/siblings-forward-length", ctx.construct(base + name, c),
-                      f"{name}() calls _sendMessage({', '.join(got)}): the caller's target, text and length limit must be forwarded (a dropped length silently "
-                      "falls back to the 512-octet default)")
+        mp = [a.arg for a in m.args.args][1:]
+        got_calls = []
+        e = method_env({name, "_sendMessage"}, **dict(zip(mp, ("#chan", "some text", 77))))
+        e["self._sendMessage"] = lambda *a, **kw: got_calls.append({**dict(zip(sm_params, a)), **kw})
+        try:
+            eval_block(m.body, e, funcs=follow)
+        except BlockRaised as ex:
+            raise AnalysisError(f"{base}{name}: not evaluable: {ex}")
+        want = dict(zip(sm_params, (cmd, "#chan", "some text", 77)))
+        ctx.check(got_calls == [want], "send/siblings-forward-length", base + name,
+                  f"{name}('#chan', 'some text', 77) hands _sendMessage {got_calls!r}; required {want!r}: the caller's target, text and length limit must be forwarded (a dropped "
+                  "length silently falls back to the 512-octet default)")
     # -- split(): wrap arguments
     f = ctx.func(IRC, "split")
     q = "twisted.words.protocols.irc.split"
@@ -282,13 +293,10 @@ def _check_send_path(ctx, env, low_pairs):
     # -- real messages through _sendMessage -> split -> _reallySendLine (repository functions interpreted, textwrap / str methods delegated to CPython)
     f = ctx.func(IRC, "IRCClient._sendMessage")
     q = base + "_sendMessage"
-    rs = ctx.func(IRC, "IRCClient._reallySendLine")
-    rline = rs.args.args[1].arg
     real = FollowModule(mod, dict(COMPAT), env)       # lowQuote, split and any other module-level helper are interpreted on demand
 
     def wire_of(text):
-        r = eval_block(rs.body, {**env, rline: text, "self": object()}, funcs=real, record={"basic.LineReceiver.sendLine"})
-        return b"".join(a[-1] + dval for _, a in r.calls if isinstance(a[-1], bytes))
+        return send_one(text)
 
     WS = "\t\n\x0b\x0c\r "
     plain = ["hello world", "a\rb", "a\nb", "a\r\nb", "\r", "\n", "\r\n", "ab cd ef gh ij", "x" * 30, "", " ", "a  b", "tab\tsep", "trailing\r", "\rleading", "a\rb\rc\rd",
@@ -302,7 +310,7 @@ def _check_send_path(ctx, env, low_pairs):
             for k in (1, 2, 3, 4, 5, 8, 13, 40):
                 length = len(prefix) + 2 + k
                 try:
-                    r = eval_block(f.body, {**env, "self": object(), p_type: "PRIVMSG", p_user: "u", p_msg: text, p_len: length}, funcs=real, record={"self.sendLine"})
+                    r = eval_block(f.body, method_env({f.name, "sendLine"}, **{p_type: "PRIVMSG", p_user: "u", p_msg: text, p_len: length}), funcs=real, record={"self.sendLine"})
                 except BlockRaised as ex:
                     raise AnalysisError(f"{q}: not evaluable for message {text!r}: {ex}")
                 if r.raised:
@@ -452,6 +460,17 @@ SILENT = [
            "    w = textwrap.TextWrapper(width=length, break_on_hyphens=True)\n    return [chunk for line in str.split(\"\\n\") for chunk in w.wrap(line)]\n"),
     Silent("queue-as-deque-popleft", IRC, "            self._reallySendLine(self._queue.pop(0))\n", "            self._reallySendLine(self._queue.popleft())\n",
            more=[(IRC, "        self.supported = ServerSupportedFeatures()\n        self._queue = []\n", "        self.supported = ServerSupportedFeatures()\n        self._queue = collections.deque()\n")]),
+    Silent("quoters-share-a-helper", IRC, "def lowQuote(s):\n    for c in (M_QUOTE, NUL, NL, CR):\n        s = s.replace(c, mQuoteTable[c])\n    return s\n",
+           "def _applyRows(s, table, order):\n    for c in order:\n        s = s.replace(c, table[c])\n    return s\n\n\ndef lowQuote(s):\n    return _applyRows(s, mQuoteTable, (M_QUOTE, NUL, NL, CR))\n"),
+    Silent("ctcpquote-by-reduce", IRC, "    for c in (X_QUOTE, X_DELIM):\n        s = s.replace(c, xQuoteTable[c])\n    return s\n",
+           "    return reduce(lambda acc, c: acc.replace(c, xQuoteTable[c]), (X_QUOTE, X_DELIM), s)\n"),
+    Silent("really-send-line-temporaries", IRC, "        quoteLine = lowQuote(line)\n        if isinstance(quoteLine, str):\n            quoteLine = quoteLine.encode(\"utf-8\")\n        quoteLine += b\"\\r\"\n        return basic.LineReceiver.sendLine(self, quoteLine)\n",
+           "        quoted = lowQuote(line)\n        octets = quoted.encode(\"utf-8\") if isinstance(quoted, str) else quoted\n        return basic.LineReceiver.sendLine(self, octets + b\"\\r\")\n"),
+    Silent("payload-room-helper-method", IRC, "        minimumLength = len(fmt) + 2\n        if length <= minimumLength:\n            raise ValueError(\n                \"Maximum length must exceed %d for message \"\n                \"to %s\" % (minimumLength, user)\n            )\n        for line in split(message, length - minimumLength):\n",
+           "        for line in split(message, self._room(fmt, user, length)):\n",
+           more=[(IRC, "    def msg(self, user, message, length=None):\n", "    def _room(self, fmt, user, length):\n        overhead = len(fmt) + 2\n        if length <= overhead:\n            raise ValueError(\"Maximum length must exceed %d for message to %s\" % (overhead, user))\n        return length - overhead\n\n    def msg(self, user, message, length=None):\n")]),
+    Silent("split-as-generator", IRC, "    return [chunk for line in str.split(\"\\n\") for chunk in textwrap.wrap(line, length)]\n",
+           "    def pieces():\n        for paragraph in str.split(\"\\n\"):\n            yield from textwrap.wrap(paragraph, length)\n\n    return list(pieces())\n"),
     Silent("budget-guard-rewritten", IRC, "        if length <= minimumLength:\n", "        if not length > minimumLength:\n"),
     Silent("dequote-table-comprehension-free", IRC, "for k, v in mQuoteTable.items():\n    mDequoteTable[v[-1]] = k\n", "for k, v in mQuoteTable.items():\n    mDequoteTable[v[1:]] = k\n"),
     Silent("notice-length-keyword", IRC, '        self._sendMessage("NOTICE", user, message, length)\n', '        self._sendMessage("NOTICE", user, message, length=length)\n'),
